@@ -70,6 +70,8 @@ pub fn walpha(name: &str) -> Vec<f64> {
         "wf" => vec![0.1, 0.2, 0.3],
         "wf2" => vec![0.1, 0.2],
         "wf71" => vec![0.7, 0.1],
+        // twenty orders of magnitude inside one graph: normalised weights and their products fall below f64::EPSILON
+        "wspan" => vec![1e-20, 1.0],
         // three levels far apart: a node improved from 10 to 2 while another waits at 5
         "wlev" => vec![1.0, 5.0, 10.0],
         // exact in f64, equal after narrowing to f32 (2^24 and 2^24+1), plus a light edge
@@ -416,7 +418,7 @@ pub fn parse_case(case: &str) -> Option<(Family, u64, u8, u8, String)> {
     if !(p.len() == 7 || (p.len() == 8 && (p[7].starts_with('P') || p[7].starts_with('H')))) || p[0] != "g" {
         return None;
     }
-    let wa: &'static str = ["u", "w1", "w12", "w123", "w01", "w012", "wf", "wneg", "wtiny", "whuge", "winf", "wmax", "wf2", "w12inf", "ksrc", "ksrc2", "kdst", "ksum", "wf32", "wlev", "wf71"].iter().find(|x| **x == p[3]).copied()?;
+    let wa: &'static str = ["u", "w1", "w12", "w123", "w01", "w012", "wf", "wneg", "wtiny", "whuge", "winf", "wmax", "wf2", "w12inf", "ksrc", "ksrc2", "kdst", "ksum", "wf32", "wlev", "wf71", "wspan"].iter().find(|x| **x == p[3]).copied()?;
     let f = Family { kind: Kind::from_idx(p[1].parse().ok()?), n: p[2].parse().ok()?, walpha: wa, orders: vec![], min_edges: 0, max_edges: usize::MAX, primed: p.len() == 8 && p[7].starts_with('P'), histories: p.len() == 8 && p[7].starts_with('H') };
     Some((f, p[4].parse().ok()?, p[5].parse().ok()?, p[6].parse().ok()?, extra))
 }
